@@ -312,6 +312,7 @@ type AttrRule struct{ Re *regexp.Regexp }
 // StyleRule mirrors the documented precedence of the style builder: handler,
 // else enum, else regexp, else the default handler for the property.
 type StyleRule struct {
+	Key     string // canonical description of the matcher (for abstract-state keys)
 	Handler func(string) bool
 	Enum    []string
 	Re      *regexp.Regexp
@@ -481,13 +482,15 @@ func (v *View) apply(c Call) {
 		mk := func(prop string) StyleRule {
 			switch {
 			case c.Handler != "":
-				return StyleRule{Handler: StyleHandlers[c.Handler]}
+				return StyleRule{Key: "h:" + c.Handler, Handler: StyleHandlers[c.Handler]}
 			case len(c.Enum) > 0:
-				return StyleRule{Enum: c.Enum}
+				e := lowerAll(c.Enum)
+				sort.Strings(e)
+				return StyleRule{Key: "e:" + strings.Join(e, ","), Enum: c.Enum}
 			case c.Re != "":
-				return StyleRule{Re: Regexp(c.Re)}
+				return StyleRule{Key: "r:" + c.Re, Re: Regexp(c.Re)}
 			}
-			return StyleRule{Default: prop}
+			return StyleRule{Key: "d:" + prop, Default: prop}
 		}
 		switch c.Scope {
 		case "on":
@@ -729,4 +732,182 @@ func mustJSON(x interface{}) string {
 		panic(fmt.Sprint(err))
 	}
 	return string(b)
+}
+
+// Canon returns a canonical description of the view: the *set* of rules (names
+// lower-cased, duplicates and order removed) plus the current value of every
+// switch. Two builder histories with the same Canon are rule-equivalent.
+func (v *View) Canon() string {
+	var b strings.Builder
+	set := func(name string, m map[string]bool) {
+		var ks []string
+		for k, on := range m {
+			if on {
+				ks = append(ks, k)
+			}
+		}
+		sort.Strings(ks)
+		fmt.Fprintf(&b, "%s=%v;", name, ks)
+	}
+	reStr := func(rs []*regexp.Regexp) []string {
+		m := map[string]bool{}
+		for _, r := range rs {
+			m[r.String()] = true
+		}
+		var ks []string
+		for k := range m {
+			ks = append(ks, k)
+		}
+		sort.Strings(ks)
+		return ks
+	}
+	rules := func(rs []AttrRule) []string {
+		m := map[string]bool{}
+		for _, r := range rs {
+			if r.Re == nil {
+				m["*"] = true
+			} else {
+				m["re:"+r.Re.String()] = true
+			}
+		}
+		var ks []string
+		for k := range m {
+			ks = append(ks, k)
+		}
+		sort.Strings(ks)
+		return ks
+	}
+	attrMap := func(m map[string][]AttrRule) string {
+		var ks []string
+		for k := range m {
+			ks = append(ks, k)
+		}
+		sort.Strings(ks)
+		var sb strings.Builder
+		for _, k := range ks {
+			fmt.Fprintf(&sb, "%s:%v,", k, rules(m[k]))
+		}
+		return sb.String()
+	}
+	srules := func(rs []StyleRule) []string {
+		m := map[string]bool{}
+		for _, r := range rs {
+			m[r.Key] = true
+		}
+		var ks []string
+		for k := range m {
+			ks = append(ks, k)
+		}
+		sort.Strings(ks)
+		return ks
+	}
+	styleMap := func(m map[string][]StyleRule) string {
+		var ks []string
+		for k := range m {
+			ks = append(ks, k)
+		}
+		sort.Strings(ks)
+		var sb strings.Builder
+		for _, k := range ks {
+			fmt.Fprintf(&sb, "%s:%v,", k, srules(m[k]))
+		}
+		return sb.String()
+	}
+	set("elements", v.Elements)
+	fmt.Fprintf(&b, "elemres=%v;", reStr(v.ElemRes))
+	{
+		var ks []string
+		for k := range v.ElemAttr {
+			ks = append(ks, k)
+		}
+		sort.Strings(ks)
+		for _, k := range ks {
+			fmt.Fprintf(&b, "ea[%s]={%s};", k, attrMap(v.ElemAttr[k]))
+		}
+	}
+	{
+		merged := map[string]map[string][]AttrRule{}
+		for _, pa := range v.PatAttr {
+			k := pa.Re.String()
+			if merged[k] == nil {
+				merged[k] = map[string][]AttrRule{}
+			}
+			for a, rs := range pa.Attrs {
+				merged[k][a] = append(merged[k][a], rs...)
+			}
+		}
+		var ks []string
+		for k := range merged {
+			ks = append(ks, k)
+		}
+		sort.Strings(ks)
+		for _, k := range ks {
+			fmt.Fprintf(&b, "pa[%s]={%s};", k, attrMap(merged[k]))
+		}
+	}
+	fmt.Fprintf(&b, "global={%s};", attrMap(v.Global))
+	set("bare", v.Bare)
+	fmt.Fprintf(&b, "bareres=%v;", reStr(v.BareRes))
+	set("skip", v.Skip)
+	{
+		var ks []string
+		for k := range v.ElemStyle {
+			ks = append(ks, k)
+		}
+		sort.Strings(ks)
+		for _, k := range ks {
+			fmt.Fprintf(&b, "es[%s]={%s};", k, styleMap(v.ElemStyle[k]))
+		}
+		merged := map[string]map[string][]StyleRule{}
+		for _, ps := range v.PatStyle {
+			k := ps.Re.String()
+			if merged[k] == nil {
+				merged[k] = map[string][]StyleRule{}
+			}
+			for a, rs := range ps.Styles {
+				merged[k][a] = append(merged[k][a], rs...)
+			}
+		}
+		ks = nil
+		for k := range merged {
+			ks = append(ks, k)
+		}
+		sort.Strings(ks)
+		for _, k := range ks {
+			fmt.Fprintf(&b, "ps[%s]={%s};", k, styleMap(merged[k]))
+		}
+		fmt.Fprintf(&b, "gs={%s};", styleMap(v.GlobStyle))
+	}
+	fmt.Fprintf(&b, "opts=%v,%v,%v,%v,%v,%v,%v,%v,%v,%v,%v,%v;", v.AddSpaces, v.NoFollow, v.NoFollowFQ, v.NoReferrer, v.NoReferrerFQ, v.TargetBlank,
+		v.ParseableURLs, v.RelativeURLs, v.DataAttrs, v.Comments, v.CrossOrigin, v.Unsafe)
+	if v.Sandbox == nil {
+		b.WriteString("sandbox=off;")
+	} else {
+		set("sandbox", v.Sandbox)
+	}
+	{
+		var ks []string
+		for k := range v.Schemes {
+			ks = append(ks, k)
+		}
+		sort.Strings(ks)
+		for _, k := range ks {
+			fns := append([]string{}, v.Schemes[k]...)
+			sort.Strings(fns)
+			// duplicates of the same check are one alternative
+			var u []string
+			for i, f := range fns {
+				if i == 0 || fns[i-1] != f {
+					u = append(u, f)
+				}
+			}
+			if len(u) == 0 {
+				fmt.Fprintf(&b, "scheme[%s]=*;", k)
+			} else {
+				fmt.Fprintf(&b, "scheme[%s]=%v;", k, u)
+			}
+		}
+	}
+	fmt.Fprintf(&b, "schemeres=%v;rewriter=%s", reStr(v.SchemeRes), v.Rewriter)
+	return b.String()
 }
